@@ -1,4 +1,4 @@
-import Pcore.Proofs.Reflect
+import Pcore.Proofs.ReflectStruct
 /-!
 # C18 — The Go reflection bridge round-trips values and agrees with inferred types
 
@@ -26,9 +26,12 @@ Full statement / proved / missing
   width's range, also after the `int64(uint64)` wrap-around.
 * `C18_map_any_order`  — a Go map rebuilt from the entries of the sorted Hash, in whatever order `sortedMap` left
                          them, is the original map.
-* `C18_struct`         — flat structs: `px.New(T, InitHash(wrap s))` (named dispatch) and `px.New(T, attribute values…)`
-                         (positional dispatch) reflect back to the field values of `s`, for every field list with
-                         distinct attribute names whose fields are in both halves above.
+* `C18_struct`         — flat structs (tags `name=>`, `value=>` = declared default): `px.New(T, InitHash(wrap s))`, `px.New(T,
+                         full hash)` (named dispatch → PositionalFromHash cuts trailing defaults → setValues puts them
+                         back), `px.New(T, attribute values…)` and the same without the trailing defaults (positional
+                         dispatch) all reflect back to the field values of `s`, for every field list with distinct
+                         attribute names whose fields are in both halves above.  `C18_defaults_restored`: cut + put back
+                         is the identity for any attribute list.
 * missing (partial): `reflect` itself is the model's parameter (trusted base) — MakeSlice, MakeMap, SetMapIndex, Set,
   truncating SetInt/SetUint, float32 conversion `r32` (assumed exact on float32 values: hypothesis `hr`); nested
   structs, pointers to structs, embedding, struct tags other than `name`, registration in the implementation registry,
@@ -106,27 +109,48 @@ theorem C18_roundtrip_unsigned_wraps (r32 : Nat → Nat) (i : Int) (h : hasType 
 theorem C18_map_any_order (l₁ l : List (GoVal × GoVal)) (hp : l₁.Perm l) (hs : sortedKeys l = true) : mapOf l₁ = l :=
   mapOf_perm_sorted hp hs
 
-/-- **structs** (flat: struct-free reflectable field types, no bare interface{} field): the object type derived from the
-    struct constructs — from the init hash of the wrapped struct through the named-argument dispatch, and from the
-    attribute values through the positional dispatch — an instance that converts back to the same field values.
+/-- **structs** (flat: struct-free reflectable field types, no bare interface{} field; tags `name=>` and `value=>`):
+    the object type derived from the struct constructs an instance that converts back to the same field values —
+    from the init hash of the wrapped struct (attributes at their default omitted) and from the hash with every attribute,
+    both through the named-argument dispatch, `PositionalFromHash` (trailing defaults cut) and `setValues` (declared
+    defaults put back); and positionally from all attribute values and from the values without the trailing defaults.
     `FieldOK` = flat ∧ well typed ∧ `RtOK false` ∧ `TaOK false` (a field goes through `wrapReflected`). -/
 theorem C18_struct (r32 : Nat → Nat) (hr : R32Exact r32) (fvs : List (Field × GoVal))
     (hn : (fvs.map (·.1.name)).Nodup) (hf : ∀ fv ∈ fvs, FieldOK fv) :
-    newNamed r32 (fvs.map (·.1)) (initHash fvs) = some (fvs.map (·.2)) ∧ newPos r32 fvs = some (fvs.map (·.2)) :=
-  ⟨newNamed_ok r32 hr fvs hn hf, newPos_ok r32 hr fvs hf⟩
+    newNamed r32 (fvs.map (·.1)) (initHash fvs) = some (fvs.map (·.2)) ∧
+    newNamed r32 (fvs.map (·.1)) (fullHash fvs) = some (fvs.map (·.2)) ∧
+    newPos r32 (fvs.map (·.1)) ((attrOrder (·.1) fvs).map fieldVal) = some (fvs.map (·.2)) ∧
+    newPos r32 (fvs.map (·.1)) (trimDefaults (attrOrder id (fvs.map (·.1))) ((attrOrder (·.1) fvs).map fieldVal)) =
+      some (fvs.map (·.2)) :=
+  ⟨newNamed_ok r32 hr fvs hn hf _ (hashOf_init fvs hn), newNamed_ok r32 hr fvs hn hf _ (hashOf_full fvs hn),
+   (newPos_ok r32 hr fvs hn hf).1, (newPos_ok r32 hr fvs hn hf).2⟩
 
-/-- non-vacuity: `struct{A []uint8; B *int8 "name=>'f_b'"; C map[string]int; D *string}` with D nil (omitted from the
-    init hash) satisfies the hypotheses; a `[]byte` FIELD is an Array here (it does not pass through `wrap`'s arm) -/
+/-- the trailing values that `PositionalFromHash` cuts off because they equal the attribute's default are exactly the
+    ones `setValues` puts back (for ANY attribute list and value list of the same length) -/
+theorem C18_defaults_restored (attrs : List Field) (vals : List Val) (h : vals.length = attrs.length) :
+    restore attrs (trimDefaults attrs vals) = vals :=
+  restore_trim attrs vals h
+
+/-- non-vacuity: `struct{A []uint8; B *int8 "name=>'f_b'"; C map[string]int; P uint16 "value=>8080"; D *string}` with
+    P at its declared default and D nil: both are omitted from the init hash and cut from the value slice, and come back;
+    a `[]byte` FIELD is an Array here (it does not pass through `wrap`'s arm) -/
 def sampleStruct : List (Field × GoVal) :=
-  [(⟨"a", .slice (.uint 8)⟩, .slice [.int 255]), (⟨"f_b", .ptr (.int 8)⟩, .ptr (.int (-1))),
-   (⟨"c", .map .string (.int 0)⟩, .map [(.str "k", .int 7)]), (⟨"d", .ptr .string⟩, .nil)]
+  [({ name := "a", ty := .slice (.uint 8) }, .slice [.int 255]), ({ name := "f_b", ty := .ptr (.int 8) }, .ptr (.int (-1))),
+   ({ name := "c", ty := .map .string (.int 0) }, .map [(.str "k", .int 7)]),
+   ({ name := "p", ty := .uint 16, dflt := some (.int 8080) }, .int 8080), ({ name := "d", ty := .ptr .string }, .nil)]
 example : (sampleStruct.map (·.1.name)).Nodup := by decide
 example : ∀ fv ∈ sampleStruct, FieldOK fv := by
   intro fv h
   simp only [sampleStruct, List.mem_cons, List.not_mem_nil, or_false] at h
-  rcases h with rfl | rfl | rfl | rfl <;> exact ⟨by decide, by decide, by decide, by decide⟩
+  rcases h with rfl | rfl | rfl | rfl | rfl <;> exact ⟨by decide, by decide, by decide, by decide⟩
 example : initHash sampleStruct =
     [(.str "a", .arr [.int 255]), (.str "c", .hsh [(.str "k", .int 7)]), (.str "f_b", .int (-1))] := by rfl
+example : trimDefaults (attrOrder id (sampleStruct.map (·.1))) ((attrOrder (·.1) sampleStruct).map fieldVal) =
+    [.arr [.int 255], .hsh [(.str "k", .int 7)], .int (-1)] := by rfl
+/-- what goes wrong when `setValues` does not put the declared default back (the seeded change C18-s2): the field
+    keeps the Go zero value -/
+example : restore [{ name := "p", ty := .uint 16, dflt := some (.int 8080) }] [] = [.int 8080] ∧
+    zeroOf (.uint 16) = .int 0 := ⟨rfl, rfl⟩
 
 /-! ### non-vacuity: nested values that satisfy every hypothesis -/
 
